@@ -9,6 +9,7 @@ pub mod lattices;
 pub mod strat;
 pub mod byods;
 pub mod features;
+pub mod runmacro;
 
 pub fn all() -> Vec<ProgramDef> {
    let mut v = vec![];
@@ -17,5 +18,6 @@ pub fn all() -> Vec<ProgramDef> {
    v.extend(strat::all());
    v.extend(byods::all());
    v.extend(features::all());
+   v.extend(runmacro::all());
    v
 }
